@@ -28,12 +28,13 @@ type netOracle struct {
 	acked     map[int]map[pktKey]int   // accepted ack per chain
 	cleaned   map[int]map[[2]string]uint64
 	nextSeq   map[[2]string]uint64
+	rules     map[int][]string // whitelist committed on each chain
 	fails     []OracleFailure
 }
 
 func newNetOracle(h *NetH) *netOracle {
 	return &netOracle{h: h, sent: map[int][]Pkt{}, ackWrit: map[int]map[pktKey]string{}, delivered: map[int]map[pktKey]int{},
-		recvd: map[int]map[pktKey]int{}, acked: map[int]map[pktKey]int{}, cleaned: map[int]map[[2]string]uint64{}, nextSeq: map[[2]string]uint64{}}
+		recvd: map[int]map[pktKey]int{}, acked: map[int]map[pktKey]int{}, cleaned: map[int]map[[2]string]uint64{}, nextSeq: map[[2]string]uint64{}, rules: map[int][]string{}}
 }
 
 func (o *netOracle) fail(sig, what string, d StepDesc, idx int) {
@@ -86,6 +87,8 @@ func (o *netOracle) run() []OracleFailure {
 			continue
 		}
 		switch d.Op {
+		case "setrules":
+			o.rules[c] = append([]string{}, d.Rules...)
 		case "send":
 			p := *d.Pkt
 			// C09: consecutive sequences per (src,dst)
@@ -137,6 +140,23 @@ func (o *netOracle) run() []OracleFailure {
 			if p.Dst == self {
 				if inc(o.delivered, c, k) > 1 {
 					o.fail("C02:double-delivery", "the destination application processed the same (source,destination,sequence) twice", d, idx)
+				}
+			}
+			// C11: on the relay chain the decision follows the whitelist in force, i.e. the last rule
+			// set that was actually committed on this chain
+			if p.Relay == self {
+				forwarded := false
+				for _, e := range d.Events {
+					if strings.HasPrefix(e, "send_packet") {
+						forwarded = true
+					}
+				}
+				allowed := c12SpecAuth(o.rules[c], p.Src, p.Dst, p.Port)
+				if forwarded && !allowed {
+					o.fail("C11:forwarded-against-whitelist", "relay chain forwarded a packet that no rule of its committed whitelist matches", d, idx)
+				}
+				if !forwarded && allowed {
+					o.fail("C11:refused-although-whitelisted", "relay chain answered a packet that its committed whitelist allows with an error acknowledgement", d, idx)
 				}
 			}
 			for _, e := range d.Events {
